@@ -92,7 +92,7 @@ def _exc_site(tb):
 
 
 def invoke(world, op, faults=None, trace=False, budget=None, monitor=False, track=False, tail=0,
-           site_at=None, black=True, call=None, wall_s=30, with_exits=False, cwd_on_path=False):
+           site_at=None, black=True, call=None, wall_s=30, with_exits=False, cwd_on_path=False, bytecode=False):
     """Run one operation.
 
     op: {"cmd": "cli", "argv": [...]}  -> cdd.__main__.main(argv)
@@ -136,6 +136,11 @@ def invoke(world, op, faults=None, trace=False, budget=None, monitor=False, trac
             "Mode": (lambda target_versions, line_length, is_pyi, string_normalization: None),
         })
     os.chdir(world.root)
+    old_dwb = sys.dont_write_bytecode
+    if bytecode:
+        # the interpreter's default: modules imported during the operation get a __pycache__ entry (the harness itself
+        # runs with bytecode writing off; writes outside the world stay refused by the audit seam)
+        sys.dont_write_bytecode = False
     if cwd_on_path:
         # `python -m cdd` puts the current directory first on sys.path: whatever is importable from the project
         # directory is importable by the tool
@@ -183,6 +188,7 @@ def invoke(world, op, faults=None, trace=False, budget=None, monitor=False, trac
             signal.setitimer(signal.ITIMER_REAL, 0)
             signal.signal(signal.SIGALRM, old_alarm)
         seams.end(st)
+        sys.dont_write_bytecode = old_dwb
         if cwd_on_path:
             try:
                 sys.path.remove(world.root)
